@@ -53,7 +53,7 @@ def pairs(ctx, rng, xr, ops):
     aux = O.make_aux(rng, x, xr)
     E = x.values.astype("float64").reshape(-1, len(f), len(th))
     nondeg = all(nondegenerate(e) for e in E)
-    stat_ops = [o for o in ops.values() if o.kind == "stat" and o.name not in ("stats", "hmax") and len(f) >= o.min_nf]
+    stat_ops = [o for o in ops.values() if o.kind == "stat" and o.name not in ("stats",) and len(f) >= o.min_nf]
     chosen = [stat_ops[i] for i in rng.choice(len(stat_ops), size=min(9, len(stat_ops)), replace=False)]
     k = float(10 ** rng.uniform(-6, 6))
     a = float(rng.choice([rng.uniform(-720, 720), float(rng.integers(-400, 400)), dd * int(rng.integers(1, 30)), 360.0, 180.0]))
